@@ -9,6 +9,7 @@ sat (candidate counterexample, to be replayed), unknown (inconclusive).
 from __future__ import annotations
 
 import math
+import os
 import time
 from fractions import Fraction
 
@@ -57,6 +58,150 @@ def default_value(name, salt=""):
 
     h = int(hashlib.sha1((salt + name).encode()).hexdigest()[:8], 16)
     return 0.25 + (h % 1000) / 400.0
+
+
+def hard_check(solver, limit_s):
+    """solver.check() under a hard wall-clock limit: z3's own ``timeout`` is not always honoured by nlsat, so a timer
+    thread interrupts the context after ``limit_s`` seconds (the result is then ``unknown`` = inconclusive)."""
+    import threading
+
+    fired = []
+
+    def fire():
+        fired.append(1)
+        try:
+            solver.ctx.interrupt()
+        except Exception:  # noqa: BLE001
+            pass
+
+    t = threading.Timer(limit_s, fire)
+    t.daemon = True
+    t.start()
+    try:
+        r = solver.check()
+    except z3.Z3Exception:
+        if not fired:
+            raise
+        return z3.unknown
+    finally:
+        t.cancel()
+    return r
+
+
+FORK_PROVE = not os.environ.get("VERIF_NO_FORK")
+
+
+class FrozenModel:
+    """Values of the constants of a z3 model, rebuilt in the parent process from what a forked solver child sent back."""
+
+    def __init__(self, entries):
+        self._vals, self._decls = {}, []
+        for name, sort, val in entries:
+            if sort == "Real":
+                c, v = z3.Real(name), z3.RealVal(val)
+            elif sort == "Int":
+                c, v = z3.Int(name), z3.IntVal(int(val))
+            else:
+                c, v = z3.Bool(name), z3.BoolVal(val == "True")
+            self._vals[name] = (c, v)
+            self._decls.append(c.decl())
+
+    def decls(self):
+        return list(self._decls)
+
+    def __getitem__(self, d):
+        name = d.name() if isinstance(d, z3.FuncDeclRef) else d.decl().name()
+        cv = self._vals.get(name)
+        return cv[1] if cv else None
+
+    def eval(self, e, model_completion=False):
+        r = z3.simplify(z3.substitute(e, *[(c, v) for c, v in self._vals.values()])) if self._vals else z3.simplify(e)
+        if model_completion and not (z3.is_rational_value(r) or z3.is_int_value(r) or z3.is_true(r) or z3.is_false(r) or z3.is_algebraic_value(r)):
+            rest = {}
+            free_vars(r, rest)
+            subs = [(v, z3.RealVal(0) if z3.is_real(v) else z3.IntVal(0) if z3.is_int(v) else z3.BoolVal(False)) for v in rest.values()]
+            r = z3.simplify(z3.substitute(r, *subs)) if subs else r
+        return r
+
+
+def _freeze(res):
+    """(status, ModelRef|None) -> JSON-able (status, entries|None)."""
+    status, m = res
+    if m is None:
+        return status, None
+    entries = []
+    for d in m.decls():
+        if d.arity() != 0:
+            continue
+        v = m[d]
+        try:
+            if z3.is_true(v) or z3.is_false(v):
+                entries.append((d.name(), "Bool", str(z3.is_true(v))))
+            elif z3.is_int_value(v):
+                entries.append((d.name(), "Int", str(v.as_long())))
+            else:
+                if z3.is_algebraic_value(v):
+                    v = v.approx(30)
+                entries.append((d.name(), "Real", f"{v.numerator_as_long()}/{v.denominator_as_long()}"))
+        except Exception:  # noqa: BLE001
+            continue
+    return status, entries
+
+
+def forked(fn, limit_s):
+    """Run fn() -> (status, entries|None) in a forked child under a hard wall-clock limit; ('unknown', None) when killed."""
+    import json
+    import select
+    import signal
+
+    rfd, wfd = os.pipe()
+    pid = os.fork()
+    if pid == 0:
+        code = 0
+        try:
+            os.close(rfd)
+            try:
+                out = fn()
+            except BaseException as ex:  # noqa: BLE001
+                out = ("unknown", None)
+                code = 3
+            data = json.dumps(out).encode()
+            while data:
+                n = os.write(wfd, data)
+                data = data[n:]
+        finally:
+            os._exit(code)
+    os.close(wfd)
+    buf = b""
+    deadline = time.time() + limit_s
+    killed = False
+    while True:
+        left = deadline - time.time()
+        if left <= 0:
+            killed = True
+            break
+        ready, _, _ = select.select([rfd], [], [], left)
+        if not ready:
+            killed = True
+            break
+        chunk = os.read(rfd, 1 << 16)
+        if not chunk:
+            break
+        buf += chunk
+    os.close(rfd)
+    if killed:
+        try:
+            os.kill(pid, signal.SIGKILL)
+        except ProcessLookupError:
+            pass
+    try:
+        os.waitpid(pid, 0)
+    except ChildProcessError:
+        pass
+    if killed or not buf:
+        return "unknown", None
+    status, entries = json.loads(buf.decode())
+    return status, (FrozenModel(entries) if entries is not None else None)
 
 
 class Stats:
@@ -218,7 +363,7 @@ class Ctx:
         self.solver.set("timeout", min(2000, timeout_ms or BRANCH_TIMEOUT_MS))
         for e in extra:
             self.solver.add(e)
-        r = str(self.solver.check())
+        r = str(hard_check(self.solver, 6))
         self.solver.pop()
         if r == "unknown":
             # ... then the independence slice with the full budget
@@ -228,7 +373,7 @@ class Ctx:
                 s.add(c)
             for e in extra:
                 s.add(e)
-            r = str(s.check())
+            r = str(hard_check(s, 1.5 * (timeout_ms or BRANCH_TIMEOUT_MS) / 1000 + 3))
         self.stats.solver_s += time.time() - t0
         self.stats.branch_queries += 1
         return r
@@ -355,29 +500,38 @@ class Ctx:
             if not sliced or set(free_vars(e)) <= vs:
                 s.add(e)
         s.add(z3.Not(goal))
+        budget = timeout_ms or PROVE_TIMEOUT_MS
+
+        def job():
+            """check; a sat verdict of the slice is confirmed against the complete hypothesis set. -> (status, model|None)"""
+            r_ = str(s.check())
+            if r_ != "sat":
+                return r_, None
+            if sliced:
+                s2 = z3.Solver()
+                s2.set("timeout", budget)
+                for c, _ in allc:
+                    s2.add(c)
+                for e in extra:
+                    s2.add(e)
+                s2.add(z3.Not(goal))
+                r2 = str(s2.check())
+                if r2 == "unsat":
+                    return "unsat", None
+                if r2 == "sat":
+                    return "sat", self._generic_model(s2)
+            return "sat", self._generic_model(s)
+
         t0 = time.time()
-        r = str(s.check())
+        if FORK_PROVE and any(is_nonlinear(a) for a in s.assertions()):
+            # z3's nlsat sometimes honours neither its timeout nor an interrupt: the search runs in a forked child that the
+            # parent kills at a hard wall-clock limit (-> unknown = inconclusive); the model comes back as plain values
+            r, m = forked(lambda: _freeze(job()), 2.0 * budget / 1000 + 8)
+        else:
+            r, m = job()  # linear arithmetic / boolean structure: the solver's own timeout is reliable
         self.stats.solver_s += time.time() - t0
         self.stats.prove[r] += 1
-        if r != "sat":
-            return r, None
-        if sliced:
-            # confirm the counterexample against the complete hypothesis set
-            s2 = z3.Solver()
-            s2.set("timeout", timeout_ms or PROVE_TIMEOUT_MS)
-            for c, _ in allc:
-                s2.add(c)
-            for e in extra:
-                s2.add(e)
-            s2.add(z3.Not(goal))
-            r2 = str(s2.check())
-            if r2 == "unsat":
-                self.stats.prove["sat"] -= 1
-                self.stats.prove["unsat"] += 1
-                return "unsat", None
-            if r2 == "sat":
-                return "sat", self._generic_model(s2)
-        return r, self._generic_model(s)
+        return r, m
 
     reuse_decisions = False  # opt-in (relational harnesses with huge branch conditions): reuse decisions by normal form
     generic_models = True  # class-level switch; harnesses whose replays pick their own numbers turn it off
@@ -407,7 +561,7 @@ class Ctx:
             n, d = val.as_integer_ratio()
             s.push()
             s.add(v == z3.Q(n, d))
-            if str(s.check()) == "sat":
+            if str(hard_check(s, 3)) == "sat":
                 m = s.model()
             else:
                 s.pop()
@@ -423,7 +577,7 @@ class Ctx:
                 self.solver.add(e)  # denominators (kept out of the incremental solver otherwise)
         for e in extra:
             self.solver.add(e)
-        self.last_model_status = str(self.solver.check())
+        self.last_model_status = str(hard_check(self.solver, 1.5 * MODEL_TIMEOUT_MS / 1000 + 3))
         m = self.solver.model() if self.last_model_status == "sat" else None
         self.solver.pop()
         if self.last_model_status == "unknown":
@@ -431,7 +585,7 @@ class Ctx:
             self.solver.push()
             for e in extra:
                 self.solver.add(e)
-            r = str(self.solver.check())
+            r = str(hard_check(self.solver, 1.5 * MODEL_TIMEOUT_MS / 1000 + 3))
             if r == "sat":
                 self.last_model_status = "sat-without-denominators"
                 m = self.solver.model()
@@ -616,6 +770,44 @@ def free_vars(term, acc=None, seen=None):
         else:
             stack.extend(t.children())
     return acc
+
+
+_NL_CACHE: dict = {}
+
+
+def is_nonlinear(term):
+    """True if the term multiplies / divides two non-numeral sub-terms, uses a power or applies an uninterpreted function -
+    the queries on which nlsat can overrun every limit; linear arithmetic and pure boolean structure never do."""
+    k = term.get_id()
+    hit = _NL_CACHE.get(k)
+    if hit is not None and hit[0].eq(term):
+        return hit[1]
+    res = False
+    seen = set()
+    stack = [term]
+    while stack and not res:
+        t = stack.pop()
+        if t.get_id() in seen:
+            continue
+        seen.add(t.get_id())
+        if z3.is_app(t):
+            kind = t.decl().kind()
+            ch = t.children()
+            if kind == z3.Z3_OP_MUL:
+                if sum(1 for c in ch if not (z3.is_rational_value(c) or z3.is_int_value(c) or z3.is_algebraic_value(c))) >= 2:
+                    res = True
+            elif kind in (z3.Z3_OP_DIV, z3.Z3_OP_IDIV, z3.Z3_OP_MOD, z3.Z3_OP_REM):
+                if not (z3.is_rational_value(ch[1]) or z3.is_int_value(ch[1])):
+                    res = True
+            elif kind == z3.Z3_OP_POWER:
+                res = True
+            elif kind == z3.Z3_OP_UNINTERPRETED and ch:
+                res = True
+            stack.extend(ch)
+    if len(_NL_CACHE) > 200000:
+        _NL_CACHE.clear()
+    _NL_CACHE[k] = (term, res)
+    return res
 
 
 # ---------------------------------------------------------------------- rational normal form
